@@ -341,6 +341,11 @@ var catalogue = map[string]spec{
 		return options.WithSSHConfigFile(existingFile(o.K))
 	}, func(o Opt, m model, c *ctx) string {
 		if !c.hasSSH() {
+			if o.K == 2 {
+				// invalid value for a target that is not there: ignored or rejected, either is fine
+				return "maybe-bad-option"
+			}
+
 			return ""
 		}
 
@@ -360,6 +365,11 @@ var catalogue = map[string]spec{
 		return options.WithSSHKnownHostsFile(existingFile(o.K))
 	}, func(o Opt, m model, c *ctx) string {
 		if !c.hasSSH() {
+			if o.K == 2 {
+				// invalid value for a target that is not there: ignored or rejected, either is fine
+				return "maybe-bad-option"
+			}
+
 			return ""
 		}
 
